@@ -78,8 +78,8 @@ CHECKS = {
  'C06': dict(
    category='model_checking', design_ref='DESIGN.md §5.6',
    technique='TLA+ decision table of the phase/role gate (specs/Transport/Gate.tla) model-checked with TLC; every row injected by a raw malicious peer (client and server role) or a cleartext MITM into a real dialogue and compared with an untampered twin run',
-   text='TLC checks the transcribed gate of _recv_packet and the connection-level handlers over every (role, phase, message class, strict) row against NoEffectOutOfPhase/StrictNoFiller/RoleRespected (variants without the auth gate / role checks are rejected) and emits the table; each row of the encrypted phases is injected (well-formed, truncated, trailing bytes; thorough: every type 1..100) by a raw peer into a real server and a real client dialogue, singly and in pairs, and must end the connection or leave the run identical to the twin; cleartext injections at every pre-NEWKEYS position and the prefix-truncation manoeuvre must not go unnoticed under strict key exchange; USERAUTH_SUCCESS is sent at every point of the client dialogue and may only be accepted while the client log shows a request outstanding.',
-   note='Trusted: TLC, raw peers built on asyncssh transport for their own side, hook log of the client for the outstanding-request criterion. Non-strict peers are covered by the table only. Late USERAUTH_BANNER is a deliberate upstream tolerance and is not alarmed.'),
+   text='TLC checks the transcribed gate of _recv_packet and the connection-level handlers over every (role, phase, message class, strict) row against NoEffectOutOfPhase/StrictNoFiller/RoleRespected (variants without the auth gate / role checks are rejected) and emits the table; each row of the encrypted phases is injected (well-formed, truncated, trailing bytes; thorough: every type 1..100) by a raw peer into a real server and a real client dialogue, singly and in pairs, and must end the connection or leave the run identical to the twin; cleartext injections at every pre-NEWKEYS position (by a MITM, and by the raw peer itself with and without strict key exchange) and the prefix-truncation manoeuvre must not go unnoticed under strict key exchange; the same injections after a completed key re-exchange (phase P4n); USERAUTH_SUCCESS is sent at every point of the client dialogue and may only be accepted while the client log shows a request outstanding.',
+   note='Trusted: TLC, raw peers built on asyncssh transport for their own side, hook log of the client for the outstanding-request criterion. Peers without strict key exchange are raw peers that do not offer it (server under test; first exchange and all encrypted phases incl. after a re-exchange); a non-strict raw SERVER against the real client is covered by the table only. Late USERAUTH_BANNER is a deliberate upstream tolerance and is not alarmed.'),
  'C19': dict(
    category='model_checking', design_ref='DESIGN.md §5.19',
    technique='TLA+ models of the stream session, process exit/collect and drain (specs/Stream) model-checked with TLC; case tables and behaviours replayed over real channel pairs with exactly TLC packetisation against a reference semantics on the concatenated stream',
